@@ -661,3 +661,6 @@ def run(ctx):
     ctx.rule("C07.f", "binning copies are built by the constructor only: copy() stores nothing on its result, so no stale cache "
              "(_numpy_bins, _consecutive) travels with a copy that __getitem__ then re-bins", 4)
     check_binning_copies(ctx, "C07.f", m)
+
+    # shared with C04.c: where an empty fixed-width binning puts its first bin
+    ctx.borrow("C04", ("_force_bin_existence_single:first-bin",), "C07.d", floor=2)
